@@ -122,11 +122,19 @@ def make_judges(ctx):
             ctx.floor_hit(('count-type', 'numpy', 'L' if left else 'R', mode))
         for p in U.u2_frame_problems(ev, Fxp):
             ctx.violation('operand_changed', p[1], ev, extra=p[2])
-    return [shift_judge]
+    def own_codes_judge(ev):
+        """the result of a shift is a new object: it does not share its codes (nor its configuration or status record) with the operand - a later store into
+        either of them must not reach the other ("the operand is never modified", also afterwards)"""
+        if ev.kind != 'method' or ev.op not in ('__lshift__', '__rshift__') or ev.exc is not None:
+            return
+        for p_ in U.u2_alias_problems(ev, ctx.mon.Fxp):
+            ctx.violation('result_shares_state', p_[1], ev, key='alias.shift')
+        ctx.floor_hit(('own-codes',))
+    return [shift_judge, own_codes_judge]
 
 
 def floors(tier):
-    return [(d, m, c) for d in 'LR' for m in ('expand', 'trunc', 'keep') for c in ('0', '<w', '>=w')] + [('count-type', 'numpy', d, m) for d in 'LR' for m in ('expand', 'trunc', 'keep')] + \
+    return [('own-codes',)] + [(d, m, c) for d in 'LR' for m in ('expand', 'trunc', 'keep') for c in ('0', '<w', '>=w')] + [('count-type', 'numpy', d, m) for d in 'LR' for m in ('expand', 'trunc', 'keep')] + \
            [('numpy-function', d, m) for d in 'LR' for m in ('expand', 'trunc', 'keep')]
 
 
